@@ -54,7 +54,7 @@ def run(chk: Check) -> None:
         sepcheck.validate(chk, rec, f"exhaustive streams<= {n_exh} seplen={seplen}")
     # 3. frame-built streams around the thresholds, with undecodable frames and oversized frames
     for seplen in (1, 2, 3):
-        these = [c for c in cfgs if len(c.sep) == seplen]
+        these = [c for c in cfgs if len(c.sep) == seplen and not c.lenient]
         for limit in ((6,) if quick else (5, 6, 9)):
             streams = sepharness.frame_streams(seplen, limit, with_bad=True, max_frames=3, rng=rng, cap=60 if quick else 400)
             rec = sepcheck.record_many(these, limit, streams, 3, rng, exhaustive_upto=6, nrandom=3, per_stream_cap=4 if quick else 16)
